@@ -474,6 +474,8 @@ def removeM (env : Env) (path : Str) : M Unit := do
     | some fs => if !fs.isEmpty then fail .dirContainsFiles else M.pure ()
     | none => M.pure ()
   | none => M.pure ()
+  -- `if !guard.contains_entry(&path) { return Ok(()); }` (repair of `remove_below_file`)
+  if (← getEntry p).isNone then return () else
   let d ← dirOf p
   match (← getEntry d) with
   | some pe =>
